@@ -36,7 +36,7 @@ class Gen(object):
 
     def fname(self):
         self.nf += 1
-        return self.r.choice(["a", "b", "fld", "x_", "Len", "v"]) + str(self.nf)
+        return self.r.choice(["a", "b", "fld", "x_", "Len", "v", "_p$", "w$x"]) + str(self.nf)
 
     def order(self):
         return self.r.choice([None, None, None, "<", ">"])
